@@ -59,6 +59,14 @@ def _tf(name, occ, params, **kw):
     return (Frag(name, _GRID, "Grid.transform", "assign", {k: "real" for k in params}, occ=(occ, occ), rename=_RN_TF, **kw), "real")
 
 
+def _xf(name, file, func, params, **kw):
+    """C11: a method of ExpFlow / StationaryVelocityFieldTransform over the record `ExpFlowCfg` (Model/ExpFlowState.lean)"""
+    kw.setdefault("ctors", {"ExpFlow": ()})
+    kw.setdefault("defaults", {"scale": "((1 : Nat) : α)", "steps": "5", "align_corners": "true"})      # ExpFlow.__init__ @53-69
+    return (Frag(name, "deepali/" + file, func, "record", params, record="ExpFlowCfg", methods={"inverse": "ExpFlowCfg.inverse"},
+                 fields={"scale": ("scale", "real"), "steps": ("steps", "nat"), "align_corners": ("alignCorners", "bool")}, **kw), "real")
+
+
 def _co(name, target, occ, params, elt=None):
     return (Frag(name, _GRID, "Grid.coords", "assign", {k: "real" for k in params}, target=target, occ=(occ, occ), elt=elt), "real")
 
@@ -224,6 +232,18 @@ REGISTRY: Dict[str, List[Tuple[Frag, str]]] = {
         (Frag("expv_step", _FL, "expv", "assign", {"disp": "real", "w": "real"}, target="disp", occ=(1, 1),
               rename={"warp_image(disp, grid, flow=move_dim(disp, 1, -1), mode=sampling, padding=padding, align_corners=align_corners)": "w"}), "real"),
         (Frag("warp_pos", _FL, "warp_image", "assign", {"grid": "real", "flow": "real"}, target="grid", occ=(1, 1)), "real"),
+        # the STATE of the exponential (scale, steps, align_corners) through ExpFlow.inverse / .inv / forward and through
+        # StationaryVelocityFieldTransform.grid_ / .inverse: whole function bodies in record mode (a shallow copy is the same
+        # record, an attribute assignment on it a record update; `ExpFlow(...)` is a record literal whose omitted keywords
+        # take the defaults of ExpFlow.__init__, so a rebuilt module that drops an attribute fails the equality theorem)
+        _xf("expflow_inverse", "modules/flow.py", "ExpFlow.inverse", {"self": "rec"}),
+        _xf("expflow_inv", "modules/flow.py", "ExpFlow.inv", {"self": "rec"}),
+        _xf("expflow_forward_args", "modules/flow.py", "ExpFlow.forward", {"self": "rec", "inverse": "bool"}, ctors={"U.expv": ("x",)},
+            defaults={}),
+        _xf("svf_grid", "spatial/nonrigid.py", "StationaryVelocityFieldTransform.grid_", {"self.exp": "rec", "grid_ac": "bool"},
+            rename={"grid.align_corners()": "grid_ac", "cast(ExpFlow, self.exp)": "self.exp"}, skip=("super().grid_(grid)",)),
+        _xf("svf_inverse", "spatial/nonrigid.py", "StationaryVelocityFieldTransform.inverse", {"self.exp": "rec"},
+            rename={"cast(ExpFlow, self.exp)": "self.exp"}, skip=("link", "update_buffers")),
     ],
     "C13": [
         (Frag("compose_pos", _FL, "compose_flows", "assign", {"x": "real", "u": "real"}, target="x", occ=(1, 1), idfuncs=("move_dim", "unsqueeze")), "real"),
@@ -241,6 +261,15 @@ REGISTRY: Dict[str, List[Tuple[Frag, str]]] = {
               lets=("intersection", "fps", "fns", "numerator", "denominator", "loss"), result="=loss",
               rename={"dot_channels(y_pred, y, weight=weight)": "tp", "dot_channels(y_pred, 1 - y, weight=weight)": "fp",
                       "dot_channels(1 - y_pred, y, weight=weight)": "fn"}), "real"),
+        # losses/base.py NormalizedPairwiseImageLoss.__init__: the statements that derive `self.norm` from the three optional
+        # arguments — `if norm is True:` and the whole `if norm is None: … elif norm is False:` chain. `norm` is an optional
+        # scalar whose None-ness is tracked along each path; the identity tests against the two bool singletons are named by
+        # Bool parameters (any other test on `norm`, e.g. `isinstance(norm, bool)` or `==`, leaves the supported subset);
+        # `source` / `target` are optional opaque objects (tested for None, aliased, handed to `max_difference`).
+        (Frag("module_norm", "deepali/losses/base.py", "NormalizedPairwiseImageLoss.__init__", "block",
+              {"norm": "optreal", "norm_is_true": "bool", "norm_is_false": "bool", "source": "optobj", "target": "optobj"},
+              tests=("norm is True", "norm is None"), outs=("norm",), objfuncs=("max_difference",),
+              rename={"norm is True": "norm_is_true", "norm is False": "norm_is_false"}), "real"),
     ],
     "C17": [
         (Frag("lame_table", "deepali/losses/functional.py", "lame_parameters", "block",
